@@ -21,11 +21,11 @@ structure Codec.Sound {V : Type} (c : Codec V) : Prop where
 /-- A string literal as a list of code points (for examples). -/
 def str (x : String) : Str := x.toList.map Char.toNat
 
-/-- The format AUTO stands for. -/
-def resolve (format : Nat) : Nat := if format = AUTO then defaultSerializationFormat else format
+/-- The format AUTO stands for when `DefaultSerializationFormat = defSer`. -/
+def resolve (defSer format : Nat) : Nat := if format = AUTO then defSer else format
 
-/-- The compression AUTO stands for. -/
-def resolveCompression (c : Nat) : Nat := if c = AUTO then defaultCompressionFormat else c
+/-- The compression AUTO stands for when `DefaultCompressionFormat = defComp`. -/
+def resolveCompression (defComp c : Nat) : Nat := if c = AUTO then defComp else c
 
 /-- The serialization formats that go through a third-party codec, and the ids a caller may pass for them. -/
 def codecFormats : List Nat := [CBOR, GenCode, JSON, MsgPack, YAML]
@@ -41,6 +41,22 @@ def libOf (format : Nat) : Option Lib :=
 
 /-- Formats that have a mime type (the ones usable over HTTP). -/
 def mimeFormats : List Nat := formatToMimeType.map Prod.fst
+
+/-! ### Which values of the two package variables the property is about
+
+`DefaultSerializationFormat` may be assigned any value. The dump/load sentences of the property are about AUTO
+standing for a format that goes through a codec (`SerOk`); the HTTP sentence ("for every Accept header that names a
+supported format or a wildcard") needs the default to be a format that can be named in a Content-Type at all
+(`HttpOk`); AUTO compression must stand for a compression (`CompOk`). The initialisers satisfy all three
+(`init_cfg_ok`, decided over the regenerated values). Requests for an explicit format never read the variables. -/
+
+def Cfg.SerOk (cfg : Cfg) : Prop := cfg.defSer ∈ codecFormats
+def Cfg.HttpOk (cfg : Cfg) : Prop := cfg.defSer ∈ mimeFormats
+def Cfg.CompOk (cfg : Cfg) : Prop := cfg.defComp = GZIP
+
+instance (cfg : Cfg) : Decidable cfg.SerOk := by unfold Cfg.SerOk; infer_instance
+instance (cfg : Cfg) : Decidable cfg.HttpOk := by unfold Cfg.HttpOk; infer_instance
+instance (cfg : Cfg) : Decidable cfg.CompOk := by unfold Cfg.CompOk; infer_instance
 
 /-! ### Accept headers, read independently of the code
 
